@@ -1068,3 +1068,259 @@ Lemma coherent_strict_nonvacuous :
   coherent_strict V30 doc_good2 accs_good_strict = true /\
   exists o, nth_error (run V30 doc_good2 empty_cache accs_good_strict) 1 = Some (ROp (Val o)) /\ List.length (o_query o) = 2%nat.
 Proof. split; [vm_compute; reflexivity|]. vm_compute. eexists. split; reflexivity. Qed.
+
+(* ------------------------------------------------------------------ security-derived parameters (security.py:22)
+   The already-defined test is by (name, location): what other containers hold never matters. *)
+Lemma set_get_app_some ps qs n p : set_get ps n = Val (Some p) -> set_get (ps ++ qs) n = Val (Some p).
+Proof.
+  induction ps as [|q r IH]; cbn [set_get app]; [discriminate|].
+  destruct (p_name q) as [m|]; cbn [bind]; [|discriminate].
+  destruct (py_eq m n); [tauto | exact IH].
+Qed.
+
+Lemma set_get_app_none ps qs n : set_get ps n = Val None -> set_get (ps ++ qs) n = set_get qs n.
+Proof.
+  induction ps as [|q r IH]; cbn [set_get app]; [reflexivity|].
+  destruct (p_name q) as [m|]; cbn [bind]; [|discriminate].
+  destruct (py_eq m n); [discriminate | exact IH].
+Qed.
+
+Lemma set_get_in ps n p : set_get ps n = Val (Some p) -> In p ps.
+Proof.
+  induction ps as [|q r IH]; cbn [set_get]; [discriminate|].
+  destruct (p_name q) as [m|]; cbn [bind]; [|discriminate].
+  destruct (py_eq m n); [intros H; inversion H; left; reflexivity | intros H; right; exact (IH H)].
+Qed.
+
+Lemma container_add_to o c c' p : container (add_to o c' p) c = container o c ++ (if loc_eqb c c' then [p] else []).
+Proof. destruct c, c'; cbn [add_to container loc_eqb o_pathp o_headers o_cookies o_query o_body]; rewrite ?app_nil_r; reflexivity. Qed.
+
+Lemma add_parameter_container o p o' c :
+  add_parameter o p = Val o' -> container o' c = container o c ++ (if goes_to c p then [p] else []).
+Proof.
+  unfold add_parameter, goes_to. destruct (p_location p) as [l|]; cbn [bind]; [|discriminate].
+  intros H; inversion H; subst o'. destruct (loc_of l) as [c'|]; [apply container_add_to | rewrite app_nil_r; reflexivity].
+Qed.
+
+Lemma add_parameters_container ps : forall o o' c,
+  add_parameters o ps = Val o' -> container o' c = container o c ++ declared_in c ps.
+Proof.
+  unfold declared_in.
+  induction ps as [|p r IH]; intros o o' c H; cbn [add_parameters filter] in *.
+  - inversion H. rewrite app_nil_r. reflexivity.
+  - destruct (add_parameter o p) as [o1|] eqn:E; cbn [bind] in H; [|discriminate].
+    rewrite (IH _ _ c H), (add_parameter_container _ _ _ c E), <- app_assoc.
+    destruct (goes_to c p); reflexivity.
+Qed.
+
+(* a parameter derived from one of the given security definitions *)
+Definition sec_param (v : version) (defs : list json) (p : param) : Prop :=
+  exists d j, In d defs /\ (api_key_param v d = Val j \/ http_auth_param v d = Val j) /\ p = PParam j.
+
+Lemma sec_param_cons v d r p : sec_param v r p -> sec_param v (d :: r) p.
+Proof. intros [d' [j [Hi [Hj Hp]]]]. exists d', j. split; [right; exact Hi | split; assumption]. Qed.
+
+(* the declared parameters stay where they are, in order; whatever is appended is security-derived *)
+Lemma process_definitions_extends v defs : forall o o', process_definitions v defs o = Val o' ->
+  forall c, exists added, container o' c = container o c ++ added /\ Forall (sec_param v defs) added.
+Proof.
+  induction defs as [|d r IH]; intros o o' H c; cbn [process_definitions] in H.
+  - inversion H. exists []. rewrite app_nil_r. split; [reflexivity | constructor].
+  - destruct (py_get d k_name) as [name|]; cbn [bind] in H; [|discriminate].
+    destruct (py_get d k_in) as [location|]; cbn [bind] in H; [|discriminate].
+    match type of H with bind ?x _ = _ => destruct x as [skp|] end; cbn [bind] in H; [|discriminate].
+    destruct skp.
+    { destruct (IH _ _ H c) as [added [Hc Hf]]. exists added. split; [exact Hc|].
+      eapply Forall_impl; [|exact Hf]. intros a. apply sec_param_cons. }
+    destruct (py_item d k_type) as [ty|]; cbn [bind] in H; [|discriminate].
+    match type of H with bind ?x _ = _ => destruct x as [o1|] eqn:E1 end; cbn [bind] in H; [|discriminate].
+    match type of H with bind ?x _ = _ => destruct x as [o2|] eqn:E2 end; cbn [bind] in H; [|discriminate].
+    destruct (IH _ _ H c) as [added [Hc Hf]].
+    assert (A1 : exists a1, container o1 c = container o c ++ a1 /\ Forall (sec_param v (d :: r)) a1).
+    { destruct (json_eqb ty (JStr s_apiKey)).
+      - destruct (api_key_param v d) as [j|] eqn:Ej; cbn [bind] in E1; [|discriminate].
+        rewrite (add_parameter_container _ _ _ c E1).
+        destruct (goes_to c (PParam j)); [|exists []; split; [reflexivity | constructor]].
+        exists [PParam j]. split; [reflexivity|]. constructor; [|constructor].
+        exists d, j. split; [left; reflexivity | split; [left; exact Ej | reflexivity]].
+      - inversion E1. exists []. rewrite app_nil_r. split; [reflexivity | constructor]. }
+    assert (A2 : exists a2, container o2 c = container o1 c ++ a2 /\ Forall (sec_param v (d :: r)) a2).
+    { destruct (json_eqb ty (JStr (if is_v20 v then s_basic else s_http))).
+      - destruct (http_auth_param v d) as [j|] eqn:Ej; cbn [bind] in E2; [|discriminate].
+        rewrite (add_parameter_container _ _ _ c E2).
+        destruct (goes_to c (PParam j)); [|exists []; split; [reflexivity | constructor]].
+        exists [PParam j]. split; [reflexivity|]. constructor; [|constructor].
+        exists d, j. split; [left; reflexivity | split; [right; exact Ej | reflexivity]].
+      - inversion E2. exists []. rewrite app_nil_r. split; [reflexivity | constructor]. }
+    destruct A1 as [a1 [H1 F1]]. destruct A2 as [a2 [H2 F2]].
+    exists (a1 ++ a2 ++ added). split.
+    + rewrite Hc, H2, H1, <- !app_assoc. reflexivity.
+    + apply Forall_app. split; [exact F1|]. apply Forall_app. split; [exact F2|].
+      eapply Forall_impl; [|exact Hf]. intros a. apply sec_param_cons.
+Qed.
+
+Lemma skip_eq o n l : n <> JNull -> l <> JNull ->
+  match n, l with
+  | JNull, _ | _, JNull => Val false
+  | _, _ => do g <- get_parameter o n l; Val (match g with Some _ => true | None => false end)
+  end = (do g <- get_parameter o n l; Val (match g with Some _ => true | None => false end)).
+Proof. intros Hn Hl. destruct n; try congruence; destruct l; try congruence; reflexivity. Qed.
+
+Lemma loc_of_str l c : loc_of l = Some c -> exists s, l = JStr s /\ str_eqb s s_formData = false.
+Proof.
+  destruct l; cbn [loc_of]; try discriminate. intros H. exists s. split; [reflexivity|].
+  destruct (str_eqb s s_formData) eqn:E; [|reflexivity].
+  apply str_eqb_spec in E. subst s. vm_compute in H. discriminate.
+Qed.
+
+Lemma loc_eqb_refl c : loc_eqb c c = true.
+Proof. destruct c; reflexivity. Qed.
+
+(* the parameter an apiKey definition yields has the name and the location of the definition *)
+Lemma api_key_param_fields v d n l :
+  py_get d k_name = Val (Some n) -> py_get d k_in = Val (Some l) ->
+  exists j, api_key_param v d = Val j /\ p_name (PParam j) = Val n /\ py_item j k_in = Val l.
+Proof.
+  destruct d; cbn [py_get]; try discriminate. intros Hn Hl. inversion Hn as [Hn']. inversion Hl as [Hl'].
+  unfold api_key_param, py_item. rewrite Hn', Hl'. cbn [bind].
+  eexists. split; [reflexivity|]. destruct (is_v20 v); split; vm_compute; reflexivity.
+Qed.
+
+(* every active apiKey definition is served by ITS container, at its name: by the declared parameter
+   with the same (name, location) when there is one, by a security-derived parameter otherwise;
+   parameters with the same name in OTHER locations play no role (they are not even mentioned) *)
+Lemma process_definitions_present v defs : forall o o', process_definitions v defs o = Val o' ->
+  forall d n l c, In d defs -> py_item d k_type = Val (JStr s_apiKey) ->
+  py_get d k_name = Val (Some n) -> py_get d k_in = Val (Some l) -> n <> JNull -> loc_of l = Some c ->
+  exists p, set_get (container o' c) n = Val (Some p).
+Proof.
+  induction defs as [|d0 r IH]; intros o o' H d n l c Hin Hty Hn Hl Hnn Hloc; [destruct Hin|].
+  destruct Hin as [->|Hin].
+  - cbn [process_definitions] in H. rewrite Hn, Hl in H. cbn [bind] in H.
+    assert (Hlnn : l <> JNull) by (intros ->; discriminate Hloc).
+    rewrite skip_eq in H; [|exact Hnn|exact Hlnn].
+    destruct (loc_of_str _ _ Hloc) as [s [-> Hnf]].
+    unfold get_parameter in H. cbn [hashable negb] in H. rewrite Hloc in H.
+    destruct (set_get (container o c) n) as [g|] eqn:Eg; cbn [bind] in H; [|discriminate].
+    destruct g as [p|].
+    + destruct (process_definitions_extends _ _ _ _ H c) as [added [Hc _]].
+      exists p. rewrite Hc. apply set_get_app_some. exact Eg.
+    + rewrite Hty in H. cbn [bind] in H. rewrite json_eqb_refl in H.
+      destruct (api_key_param_fields v d n (JStr s) Hn Hl) as [j [Ej [Hjn Hjl]]].
+      rewrite Ej in H. cbn [bind] in H.
+      destruct (add_parameter o (PParam j)) as [o1|] eqn:E1; cbn [bind] in H; [|discriminate].
+      assert (Hne : json_eqb (JStr s_apiKey) (JStr (if is_v20 v then s_basic else s_http)) = false)
+        by (destruct (is_v20 v); vm_compute; reflexivity).
+      rewrite Hne in H. cbn [bind] in H.
+      destruct (process_definitions_extends _ _ _ _ H c) as [added [Hc _]].
+      exists (PParam j). rewrite Hc. apply set_get_app_some.
+      rewrite (add_parameter_container _ _ _ c E1).
+      assert (Hg : goes_to c (PParam j) = true).
+      { unfold goes_to, p_location. rewrite Hjl. cbn [bind hashable].
+        assert (Hf : json_eqb (JStr s) (JStr s_formData) = false).
+        { destruct (json_eqb (JStr s) (JStr s_formData)) eqn:E; [|reflexivity].
+          apply json_eqb_eq in E. inversion E; subst s. rewrite str_eqb_refl in Hnf. discriminate. }
+        rewrite Hf, Hloc. apply loc_eqb_refl. }
+      rewrite Hg, (set_get_app_none _ _ _ Eg). cbn [set_get]. rewrite Hjn. cbn [bind]. rewrite py_eq_refl. reflexivity.
+  - cbn [process_definitions] in H.
+    destruct (py_get d0 k_name) as [name|]; cbn [bind] in H; [|discriminate].
+    destruct (py_get d0 k_in) as [location|]; cbn [bind] in H; [|discriminate].
+    match type of H with bind ?x _ = _ => destruct x as [skp|] end; cbn [bind] in H; [|discriminate].
+    destruct skp; [eapply IH; eauto|].
+    destruct (py_item d0 k_type) as [ty|]; cbn [bind] in H; [|discriminate].
+    match type of H with bind ?x _ = _ => destruct x as [o1|] end; cbn [bind] in H; [|discriminate].
+    match type of H with bind ?x _ = _ => destruct x as [o2|] end; cbn [bind] in H; [|discriminate].
+    eapply IH; eauto.
+Qed.
+
+Lemma api_key_of_spec d n c : api_key_of d = Some (n, c) ->
+  exists l, py_item d k_type = Val (JStr s_apiKey) /\ py_get d k_name = Val (Some n) /\ py_get d k_in = Val (Some l)
+            /\ n <> JNull /\ loc_of l = Some c.
+Proof.
+  unfold api_key_of.
+  destruct (py_item d k_type) as [ty|]; [|discriminate].
+  destruct (py_get d k_name) as [[n'|]|]; try discriminate.
+  destruct (py_get d k_in) as [[l|]|]; try discriminate.
+  destruct (json_eqb ty (JStr s_apiKey)) eqn:Et; cbn [andb]; [|discriminate].
+  destruct (json_eqb n' JNull) eqn:En; cbn [negb]; [discriminate|].
+  destruct (loc_of l) as [c'|] eqn:El; [|discriminate].
+  intros H; inversion H; subst n' c'. exists l. apply json_eqb_eq in Et. subst ty.
+  repeat split; try reflexivity; try exact El.
+  intros ->. rewrite json_eqb_refl in En. discriminate.
+Qed.
+
+(* the effective parameters of a built operation, security-derived ones included *)
+Lemma security_parameters_effective v doc path method params raw resolved scope o' :
+  make_operation v doc path method params raw resolved scope = Val o' ->
+  exists active, active_definitions v doc raw = Val active /\
+  forall c,
+    (* (1) the declared parameters of the container come first, unchanged and in order; what follows is security-derived *)
+    (exists added, container o' c = declared_in c params ++ added /\ Forall (sec_param v active) added) /\
+    (* (2) every key an active apiKey definition asks for in this container is served: by the declared parameter of that
+           (name, location) when there is one, by a security-derived one otherwise - whatever the other containers hold *)
+    (forall d n, In d active -> api_key_of d = Some (n, c) ->
+       exists p, set_get (container o' c) n = Val (Some p) /\
+                 (forall p0, set_get (declared_in c params) n = Val (Some p0) -> p = p0) /\
+                 (set_get (declared_in c params) n = Val None -> sec_param v active p)).
+Proof.
+  unfold make_operation, add_security, active_definitions. intros H.
+  destruct (add_parameters _ params) as [o1|] eqn:E1; cbn [bind] in H; [|discriminate].
+  assert (Hraw : o_raw o1 = raw).
+  { pose proof (add_parameters_ident _ _ _ E1) as I. unfold ident in I. cbn [empty_op o_raw o_path o_method o_resolved o_scope] in I.
+    inversion I. reflexivity. }
+  rewrite Hraw in H.
+  destruct (security_definitions v doc) as [defs|]; cbn [bind] in H |- *; [|discriminate].
+  destruct (security_requirements doc raw) as [reqs|]; cbn [bind] in H |- *; [|discriminate].
+  destruct (py_items defs) as [kvs|]; cbn [bind] in H |- *; [|discriminate].
+  eexists. split; [reflexivity|]. intros c.
+  pose proof (add_parameters_container _ _ _ c E1) as D. cbn [empty_op container o_pathp o_headers o_cookies o_query o_body] in D.
+  assert (D' : container o1 c = declared_in c params) by (rewrite D; destruct c; reflexivity).
+  destruct (process_definitions_extends _ _ _ _ H c) as [added [Hc Hf]].
+  rewrite D' in Hc.
+  split; [exists added; split; assumption|].
+  intros d n Hin Hk.
+  destruct (api_key_of_spec _ _ _ Hk) as [l [Hty [Hn [Hl [Hnn Hloc]]]]].
+  destruct (process_definitions_present _ _ _ _ H d n l c Hin Hty Hn Hl Hnn Hloc) as [p Hp].
+  exists p. split; [exact Hp|]. split.
+  - intros p0 H0. rewrite Hc, (set_get_app_some _ added _ _ H0) in Hp. inversion Hp. reflexivity.
+  - intros H0. rewrite Hc, (set_get_app_none _ _ _ H0) in Hp. apply set_get_in in Hp.
+    rewrite Forall_forall in Hf. apply Hf. exact Hp.
+Qed.
+
+(* executable form, as evaluated against the implementation *)
+Lemma security_keys_present_holds v doc path method params raw resolved scope o' active :
+  make_operation v doc path method params raw resolved scope = Val o' ->
+  active_definitions v doc raw = Val active -> security_keys_present active o' = true.
+Proof.
+  intros H Ha. destruct (security_parameters_effective _ _ _ _ _ _ _ _ _ H) as [active' [Ha' S]].
+  rewrite Ha in Ha'. inversion Ha'; subst active'.
+  unfold security_keys_present. apply forallb_forall. intros d Hin.
+  destruct (api_key_of d) as [[n c]|] eqn:Ek; [|reflexivity].
+  destruct (S c) as [_ S2]. destruct (S2 d n Hin Ek) as [p [Hp _]]. rewrite Hp. reflexivity.
+Qed.
+
+(* witness: API key in the header token, a declared query parameter token on the operation, a declared header token on
+   another one, two requirements at once (header token and query api_key) *)
+From Coq Require String.
+Import String.StringSyntax.
+Definition doc_sec_clash : json :=
+  let tok := S "token" in
+  let str_schema := JObj [(k_schema, JObj [(k_type, JStr s_string)])] in
+  let prm := fun n l => JObj [(k_name, JStr n); (k_in, JStr l); (k_schema, JObj [(k_type, JStr s_string)])] in
+  let ok := (S "responses", JObj [(S "200", JObj [(k_description, JStr (S "ok"))])]) in
+  JObj [(S "openapi", JStr (S "3.0.2"));
+        (k_security, JArr [JObj [(S "T", JArr []); (S "K", JArr [])]]);
+        (k_paths, JObj [
+           (S "/reset", JObj [(k_parameters, JArr [prm tok s_cookie]);
+                              (S "post", JObj [(k_parameters, JArr [prm tok s_query]); ok])]);
+           (S "/me", JObj [(S "get", JObj [(k_parameters, JArr [prm tok s_header; prm (S "api_key") s_query]); ok])])]);
+        (k_components, JObj [(k_securitySchemes, JObj [
+           (S "T", JObj [(k_type, JStr s_apiKey); (k_name, JStr tok); (k_in, JStr s_header)]);
+           (S "K", JObj [(k_type, JStr s_apiKey); (k_name, JStr (S "api_key")); (k_in, JStr s_query)])])])].
+
+Lemma security_clash_witness :
+  fresh_keys V30 doc_sec_clash (AGet (S "/reset") (S "post"))
+    = Val [Val []; Val [JStr (S "token")]; Val [JStr (S "token")]; Val [JStr (S "token"); JStr (S "api_key")]] /\
+  fresh_keys V30 doc_sec_clash (AGet (S "/me") (S "get"))
+    = Val [Val []; Val [JStr (S "token")]; Val []; Val [JStr (S "api_key")]].
+Proof. split; vm_compute; reflexivity. Qed.
